@@ -205,7 +205,9 @@ def check_ops_model(ctx, out, rule="C09.ops", only_malformed=False):
                 used_count_hook.append(1)
                 return CW.const(actual)
             # a count written as an explicit loop: `actual` non-blank lines with a blank one in between
-            if re.search(r"<impl str>::lines$", nm) and a0 == CW.sym("CONTENT"):
+            if re.search(r"<impl str>::(lines|split|split_terminator|split_inclusive)$", nm) and a0 == CW.sym("CONTENT") and (
+                    nm.endswith("::lines") or (len(argv) > 1 and w.deref_val(env, argv[1]) in (CW.const("\n"), CW.const(10)))):
+                # (splitting at '\n' yields the same pieces - plus an empty one after a final newline, which is blank)
                 ls = [CW.sym("LINE", i) for i in range(actual)]
                 return LM.itr(tuple(ls[:1] + [CW.sym("BLANK")] + ls[1:]) if ls else (() if empty else (CW.sym("BLANK"),)))
             if re.search(r"<impl str>::trim(_start|_end)?$", nm) and a0[0] == "sym" and a0[1] in ("LINE", "BLANK"):
